@@ -118,7 +118,7 @@ theorem memoCreate_spec (T : Typed) (key : Val → Text) (hinj : ∀ a b, key a 
         simp only [hmech] at hc
         exact ⟨hc.symm, hm⟩
       | none =>
-        cases ho : overlay m.type m.proto v with
+        cases ho : overlay T.cel m.type m.proto v with
         | none => exact ⟨rfl, hm⟩
         | some s =>
           refine ⟨rfl, ?_⟩
